@@ -74,3 +74,34 @@ Theorem C03_node_step_map_faithful : forall s st pos doc d',
      nth_error (DT s d') (Z.to_nat (map (get_map s st) (Z.of_nat p) 1)) = nth_error (DT s doc) p).
 Proof. exact node_step_map_faithful. Qed.
 Print Assumptions C03_node_step_map_faithful.
+
+(* ---- the maps steps produce are well formed, so every C08 theorem stated for well-formed maps (monotonicity in the
+   position and in the side, bounds, round trips) applies to the map of every step ---- *)
+From Coq Require Import Lia.
+From PM Require Import Proofs.StepMapProofs.
+Local Open Scope nat_scope.
+
+Theorem C03_replace_step_map_well_formed : forall s (from to : nat) sl structure,
+  Shape s (sl_content sl) (sl_open_start sl) (sl_open_end sl) -> from <= to ->
+  wf_map (get_map s (SReplace from to sl structure)).
+Proof.
+  intros s from to sl structure Hs Hft. pose proof (IT_length s sl Hs) as HI.
+  unfold wf_map. cbn [get_map ranges wf_ranges]. lia.
+Qed.
+Print Assumptions C03_replace_step_map_well_formed.
+
+Theorem C03_replace_around_step_map_well_formed : forall s (from to gf gt : nat) sl (ins : nat) structure,
+  Shape s (sl_content sl) (sl_open_start sl) (sl_open_end sl) ->
+  from <= gf -> gf <= gt -> gt <= to -> ins <= length (IT s sl) ->
+  wf_map (get_map s (SReplaceAround from to gf gt sl ins structure)).
+Proof.
+  intros s from to gf gt sl ins structure Hs H1 H2 H3 H4. pose proof (IT_length s sl Hs) as HI.
+  unfold wf_map. cbn [get_map ranges wf_ranges]. lia.
+Qed.
+Print Assumptions C03_replace_around_step_map_well_formed.
+
+Theorem C03_mapless_step_map_well_formed : forall s st,
+  (match st with SReplace _ _ _ _ | SReplaceAround _ _ _ _ _ _ _ => False | _ => True end) ->
+  wf_map (get_map s st).
+Proof. intros s st H. destruct st; try contradiction; exact I. Qed.
+Print Assumptions C03_mapless_step_map_well_formed.
